@@ -344,12 +344,24 @@ impl Gen {
                 let nn = self.rng.below(self.cfg.max_batch_n + 1) as usize;
                 v.push(Op::Batch { tag, name: name.clone(), deps, ctl: self.rng.below(6) as usize, t, n: nn, inner });
             } else if self.cfg.funnel {
-                // one long system opens a stage; the rest are short and mostly conflict with one group
+                // one long system opens a stage; the rest are short and mostly conflict with one
+                // group, so groups fill up; members read several ids of a pool that a few late
+                // systems write (a write against the *accumulated* reads of a multi-member group)
+                let pool = |g: &mut Gen| -> Res { (3 + g.rng.below(3) as u8, g.rng.below(NDY)) };
                 let (r, w, t) = if k % 9 == 0 {
                     (vec![], vec![(0u8, 0u64)], 5u8)
+                } else if self.rng.chance(15) {
+                    (vec![], vec![pool(self)], 1u8)
                 } else {
                     let lane = 1 + self.rng.below(2) as u8;
-                    (if self.rng.chance(20) { vec![(lane, 1)] } else { vec![] }, vec![(lane, 0)], 1u8)
+                    let mut r = if self.rng.chance(20) { vec![(lane, 1)] } else { vec![] };
+                    for _ in 0..self.rng.below(5) {
+                        let x = pool(self);
+                        if !r.contains(&x) {
+                            r.push(x);
+                        }
+                    }
+                    (r, vec![(lane, 0)], 1u8)
                 };
                 v.push(Op::Sys { tag, name: name.clone(), deps, r, w, t });
             } else {
